@@ -463,6 +463,32 @@ static void run_case(const vh::Case& c)
       }
       out(o);
     }
+    else if (op == "txseq")
+    {
+      // txseq st=<n> ops=<op>,<op>,...   one tx_response object through a history of operations:
+      //   H:<hex>  set_header_string  -> "h=<0|1>"      A:<hexname>:<hexvalue>  add_header (free form)
+      //   V        is_valid           -> "v=<0|1>"      M  message(0) -> "m=<hex>"     C  copy the object and go on with the copy
+      int st = std::stoi(vh::arg(w, "st", "200"));
+      std::unique_ptr<tx_response> rp(new tx_response(static_cast<response_status::code>(st)));
+      std::string o;
+      for (auto& e : vh::splitc(vh::arg(w, "ops", "-"), ','))
+      {
+        auto kv = vh::splitc(e, ':');
+        if (kv.empty()) continue;
+        if (!o.empty()) o += " ";
+        if (kv[0] == "H")
+          o += std::string("h=") + (rp->set_header_string(unhex(kv.at(1))) ? "1" : "0");
+        else if (kv[0] == "A")
+        { rp->add_header(std::string_view(unhex(kv.at(1))), unhex(kv.at(2))); o += "a"; }
+        else if (kv[0] == "V")
+          o += std::string("v=") + (rp->is_valid() ? "1" : "0");
+        else if (kv[0] == "M")
+          o += "m=" + hex(rp->message(0));
+        else if (kv[0] == "C")
+        { std::unique_ptr<tx_response> cp(new tx_response(*rp)); rp.swap(cp); o += "c"; }
+      }
+      out(o);
+    }
     else if (op == "splitdet")
     {
       std::string h(unhex(w.at(1)));
